@@ -139,7 +139,17 @@ def _def_use(c):
 
 
 def _vkey(r):
-    return str(r.index.t) if isinstance(r.index, SInt) else None
+    """liveness key of an R register: the symbol of an allocated temporary, or the name of a concrete R register (handed in, e.g. a loop register
+    given by the caller)"""
+    if isinstance(r.index, SInt):
+        return str(r.index.t)
+    if isinstance(r.index, int) and r.name == RegisterName.R:
+        return f"R{r.index}"
+    return None
+
+
+def _idx_term(r):
+    return r.index.t if isinstance(r.index, SInt) else z3.IntVal(int(r.index))
 
 
 def check_no_clobber(ctx, cmds, A0, allocs, handed_in=()):
@@ -209,13 +219,17 @@ def check_no_clobber(ctx, cmds, A0, allocs, handed_in=()):
                     continue
                 seen.add((v, _vkey(w)))
                 seen.add((_vkey(w), v))
-                ok2 = ctx.and_(ok2, mk_bool(regof[v].index.t != w.index.t))
+                if not isinstance(regof[v].index, SInt) and not isinstance(w.index, SInt):
+                    continue            # two concrete registers with different names
+                ok2 = ctx.and_(ok2, mk_bool(_idx_term(regof[v]) != _idx_term(w)))
         ctx.check("no-clobber: a temporary is never written while another live temporary holds the same register", ok2)
     else:
         own = {r for _, r in allocs}
         ok = all((w in own and w not in A0) or w in handed_in for _, w in writes)
         ctx.check("no-clobber: written registers are own temporaries outside the enclosing live set (or handed in)", ok)
-        ctx.check("no-clobber: a temporary is never written while another live temporary holds the same register", True)
+        # natively two temporaries in one register cannot be told apart by name; what can be seen is a register handed in by the caller (live over the
+        # whole operation) being handed out again by the allocator as a temporary
+        ctx.check("no-clobber: a temporary is never written while another live temporary holds the same register", not (own & set(handed_in)))
 
 
 def build():
